@@ -176,6 +176,14 @@ func corr(seed uint64, n int, kinds []string, repo string) {
 			add(m, "harvest-deep")
 		}
 	}
+	// structured valid variants (child permutations of sample entries, ...) that consist of modelled types
+	for _, set := range [][][]byte{bx.SampleEntryVariants(), bx.SgpdUuidVariants(), bx.EsdsVariants()} {
+		for k, b := range set {
+			if k%4 == int(seed%4) || n > 50000 {
+				add(b, "structured")
+			}
+		}
+	}
 	for i := 0; len(cases) < n; i++ {
 		var b []byte
 		if i%3 == 2 {
